@@ -2,6 +2,7 @@ package monitors
 
 import (
 	"context"
+	"encoding/binary"
 	"fmt"
 	"log/slog"
 	"math"
@@ -9,6 +10,7 @@ import (
 	"net"
 	"net/netip"
 	"os"
+	"strings"
 	"sync"
 	"time"
 
@@ -209,6 +211,10 @@ type c05Peer struct {
 	held      []byte                                               // genuine response that was withheld
 	wrap      func(payload []byte, rq *c05Req, mut *c05Mut) []byte // transport framing (SCION); nil for IP
 	unwrap    func(b []byte) (payload []byte, ok bool)
+	// receive timestamps carried by datagrams that must not be accepted; a later request that names
+	// one of them as its origin shows client state taken from a rejected datagram
+	badRecv  map[uint64]string
+	stateBad []string
 }
 
 func (p *c05Peer) handle(s *peer.NTPServer, dg []byte, from netip.AddrPort, rx time.Time) {
@@ -227,6 +233,9 @@ func (p *c05Peer) handle(s *peer.NTPServer, dg []byte, from netip.AddrPort, rx t
 	}
 	f2 := f
 	rq := &c05Req{f: f, raw: payload, interleaved: f.Origin != 0 && f.Receive != f.Transmit, from: from, rx: rx}
+	if name, bad := p.badRecv[f.Origin]; bad && f.Origin != 0 {
+		p.stateBad = append(p.stateBad, name)
+	}
 	p.requests++
 	if rq.interleaved {
 		p.inter++
@@ -368,6 +377,14 @@ func (p *c05Peer) handle(s *peer.NTPServer, dg []byte, from netip.AddrPort, rx t
 			p.sent[k] = acc
 			p.sentBytes[k] = b
 		}
+		if !acc && len(b) >= 48 {
+			if rcv := binary.BigEndian.Uint64(b[32:40]); rcv != 0 && rcv != f.Receive && rcv != f.Transmit && rcv != f.Origin {
+				if p.badRecv == nil {
+					p.badRecv = map[uint64]string{}
+				}
+				p.badRecv[rcv] = m.name
+			}
+		}
 	}
 	if os.Getenv("VERIF_DEBUG") != "" {
 		if f, err := os.OpenFile("/tmp/c05dbg.log", os.O_APPEND|os.O_CREATE|os.O_WRONLY, 0o644); err == nil {
@@ -401,6 +418,7 @@ func c05Leg(r *ev.Run, name string, p *c05Peer, muts []c05Mut, measure func(ctx 
 	successGenuine, calls := 0, 0
 	prevShift := new(time.Duration) // tag of the datagram the client accepted last (0 = a genuine reply)
 	// prime (and count) with genuine-only scripts
+	withholdNext := false
 	runScript := func(id string, script []c05Mut) {
 		if r.Only() != "" && r.Only() != id {
 			return
@@ -409,8 +427,24 @@ func c05Leg(r *ev.Run, name string, p *c05Peer, muts []c05Mut, measure func(ctx 
 		p.script = script
 		p.sent = make([]bool, len(script))
 		p.sentBytes = make([][]byte, len(script))
+		p.withhold = withholdNext
 		p.mu.Unlock()
-		ctx, cancel := context.WithTimeout(context.Background(), time.Second)
+		timeout := time.Second
+		if withholdNext {
+			timeout = 60 * time.Millisecond // nothing acceptable will arrive
+		}
+		defer func() {
+			p.mu.Lock()
+			p.withhold = false
+			sb := p.stateBad
+			p.stateBad = nil
+			p.mu.Unlock()
+			for _, n := range sb {
+				r.Violation(name+"|state:request names the receive timestamp of a datagram that must not be accepted as the exchange it continues|"+n, id,
+					map[string]any{"client": name, "rejected_datagram": n})
+			}
+		}()
+		ctx, cancel := context.WithTimeout(context.Background(), timeout)
 		var off time.Duration
 		var ts time.Time
 		var err error
@@ -521,6 +555,20 @@ func c05Leg(r *ev.Run, name string, p *c05Peer, muts []c05Mut, measure func(ctx 
 		runScript(fmt.Sprintf("%s.m%d", name, i), []c05Mut{m})
 		if i%5 == 4 {
 			runScript(fmt.Sprintf("%s.g%d", name, 100+i), nil)
+		}
+	}
+	// a crafted datagram as the only answer (the genuine reply is lost), then a genuine exchange:
+	// nothing of the rejected datagram may survive in what the client sends next
+	if strings.Contains(name, "interleaved") && !strings.Contains(name, "new client") {
+		for i, m := range muts {
+			if m.hdr == nil && m.raw == nil {
+				continue
+			}
+			withholdNext = true
+			runScript(fmt.Sprintf("%s.w%d", name, i), []c05Mut{m})
+			withholdNext = false
+			runScript(fmt.Sprintf("%s.wg%d", name, i), nil)
+			r.Class(name + ":rejected datagram as the only answer, then a genuine exchange")
 		}
 	}
 	// random scripts of two or three crafted datagrams
